@@ -314,7 +314,12 @@ def header_mutations(R, ir, kind, validator, rng, tier, repro):
 # ---------------------------------------------------------------- dict documents: kind swaps and wrapper renames
 
 SUBST = [('null', None), ('int', 5), ('str', 'text'), ('bool', True), ('float', 1.5), ('empty_map', {}), ('map', {'x': 1}), ('empty_list', []),
-         ('list', [1, 'a']), ('list_of_maps', [{'a': 1}]), ('nested_list', [[1]])]
+         ('list', [1, 'a']), ('list_of_maps', [{'a': 1}]), ('nested_list', [[1]]),
+         # kinds only some carriers can spell (the others skip them): binary that is not UTF-8, integers beyond 64 bits, NaN / infinities,
+         # native dates (YAML), zero-like values of every kind
+         ('bin_not_utf8', b'\xff\xfe'), ('bigint', 2 ** 70), ('negbigint', -2 ** 70), ('nan', float('nan')), ('inf', float('inf')),
+         ('date', datetime.date(2020, 1, 2)), ('datetime', datetime.datetime(2020, 1, 2, 3, 4, 5)), ('zero', 0), ('false', False), ('empty_str', ''),
+         ('zero_float', 0.0)]
 
 
 def positions(doc, path=()):
@@ -350,6 +355,12 @@ def kind_of(v):
         return 'map'
     if isinstance(v, (list, tuple)):
         return 'list'
+    if isinstance(v, (int, float)):
+        return 'number'
+    if isinstance(v, str):
+        return 'text'
+    if isinstance(v, (bytes, bytearray)):
+        return 'binary'
     return 'scalar'
 
 
